@@ -2,6 +2,7 @@
 #ifndef DRV_PARSENUM_H
 #define DRV_PARSENUM_H
 #include <errno.h>
+#include <float.h>
 #include <inttypes.h>
 #include <math.h>
 #include <stdint.h>
@@ -36,8 +37,20 @@ static inline void report_s(int rc, intmax_t v)
 		printf("%s %" PRIxMAX "\n", errname(e), (uintmax_t)v);
 }
 
-/* floats: nan as a class, everything else as the bit pattern of the value widened to double */
-static inline void report_f(int rc, double v)
+/* floating targets: nan as a class, everything else as the bit pattern of the target itself
+ * (8 hex digits for a float, 16 for a double) - no widening, so what the assignment inside the
+ * macro left in *x is what is printed */
+static inline void report_f32(int rc, float v)
+{
+	int e = errno;
+	uint32_t bits;
+	if ((rc != 0) != (e != 0)) { printf("rc-mismatch rc=%d errno=%d\n", rc, e); return; }
+	if (isnan(v)) { printf("%s nan\n", errname(e)); return; }
+	memcpy(&bits, &v, 4);
+	printf("%s %08" PRIx32 "\n", errname(e), bits);
+}
+
+static inline void report_f64(int rc, double v)
 {
 	int e = errno;
 	uint64_t bits;
